@@ -23,9 +23,9 @@ PROPS["C02"] = dict(
         stage("corpus", workers=1),
         stage("automaton"),
         stage("bounded"),
-        stage("random", kind="rc", quick=6000, thorough=120000, max_size=100),
+        stage("random", kind="rc", quick=6000, thorough=1500000, max_size=100),
     ],
-    rule="Local parts are (a) every string prefix+byte+suffix of the automaton-conformance suite, (b) every string of length <= 6 (quick) / <= 7 "
+    rule="Local parts are (a) every string prefix+byte+suffix of the automaton-conformance suite, (b) every string of length <= 6 (quick) / <= 8 "
          "(thorough) over 13 class-representative bytes, (c) grammar-generated valid and mutated local parts up to 300 octets, (d) the repository's "
          "local-part corpus; each judged in modes 822/5321/5322 against the reference recogniser, with '@' and with NUL after the local part. "
          "Non-trivial = accepted by the reference, or >= 2 bytes long with a first byte that does not reject at once (atom character or DQUOTE); "
@@ -50,10 +50,10 @@ PROPS["C03"] = dict(
         stage("family"),
         stage("utf8"),
         stage("bounded"),
-        stage("random", kind="rc", quick=6000, thorough=120000, max_size=100),
+        stage("random", kind="rc", quick=6000, thorough=1500000, max_size=100),
     ],
     rule="Mode-6531 local parts: (a) every 1- and 2-byte sequence, 3-byte sequences over boundary continuation values (quick) or all 255x255 "
-         "(thorough), a structured 4-byte cover, each as atom / quoted / escaped / last bytes; (b) all strings of <= 6 (quick) / <= 7 (thorough) "
+         "(thorough), a structured 4-byte cover, each as atom / quoted / escaped / last bytes; (b) all strings of <= 6 (quick) / <= 8 (thorough) "
          "symbols over {a . \" \\ SP 0x01 U+0416 U+20AC U+10348 0x80 0xC3}; (c) the a.X.b / X\"q\" / \"\\X\" family over ~1000 code points; (d) grammar-based "
          "random local parts with non-ASCII next to dots and quotes; (e) the repository corpus. Non-trivial = contains a byte >= 0x80 together with "
          "one of . \" \\, or is a malformed-UTF-8 candidate; distinct by byte-string hash.",
@@ -74,9 +74,9 @@ PROPS["C04"] = dict(
         stage("corpus", workers=1),
         stage("lengths"),
         stage("bounded"),
-        stage("random", kind="rc", quick=4000, thorough=80000, max_size=100),
+        stage("random", kind="rc", quick=4000, thorough=300000, max_size=100),
     ],
-    rule="Domains: all strings of length <= 7 (quick) / <= 9 (thorough) over {a 1 - . _ !}; every label length 0-70 in first/middle/last position "
+    rule="Domains: all strings of length <= 7 (quick) / <= 10 (thorough) over {a 1 - . _ !}; every label length 0-300 in first/middle/last position "
          "and alone (3 fillings, hyphen at either end); every total length 240-260 in 4 label layouts with 0/1/2 trailing dots and a leading dot; "
          "every byte 0x01-0xFF at first/interior/last position of a label; numeric shapes; grammar-generated and mutated ASCII and IDN host names; "
          "the repository's domain corpora. Each is judged by is_ascii_domain and, as x@D with TLD checking off, by eav_is_email in all four "
@@ -98,11 +98,11 @@ PROPS["C05"] = dict(
         stage("corpus", workers=1),
         stage("shapes"),
         stage("bounded"),
-        stage("random", kind="rc", quick=5000, thorough=100000, max_size=100),
+        stage("random", kind="rc", quick=5000, thorough=1500000, max_size=100),
     ],
     rule="Bracketed domains: every IPv6 shape (0-8 groups before x 0-8 after '::' x 0-2 '::' x optional dotted-quad tail x group widths "
          "{1,4,5,0} x tags {IPv6:, none, ipv6:, foo:, ...}); every octet value 0-300 in each of the 4 positions, bare and as IPv6 tail; digit-count and "
-         "dot-placement shapes; 1-3 bytes after ']' and a byte before '['; all strings of length <= 6 (quick) / <= 7 (thorough) over "
+         "dot-placement shapes; 1-3 bytes after ']' and a byte before '['; all strings of length <= 6 (quick) / <= 8 (thorough) over "
          "{1 a : . ] [ g} inside [IPv6:...], inside [...] and after [1.2.3.4; grammar-based random literals; the repository's literal lines. Each "
          "judged as x@D by eav_is_email (4 modes, TLD on) and by is_<mode>_email directly (TLD off). Non-trivial = domain starts with '[' and has >= 7 "
          "bytes; distinct by byte-string hash.",
@@ -121,7 +121,7 @@ PROPS["C09"] = dict(
     binaries={"c09": dict(src=["props/c09.cpp"], variants=["dflt"])},
     stages=[
         stage("lengths"),
-        stage("random", kind="rc", quick=4000, thorough=60000, max_size=100),
+        stage("random", kind="rc", quick=4000, thorough=250000, max_size=100),
     ],
     rule="Valid host names without root dot built from 0-3 leading labels (every length 1-63 for one leading label; an (l1,l2) grid - complete in "
          "thorough - for two; reserved words themselves as leading labels) followed by each of the 8 reserved suffixes and each one-edit neighbour "
@@ -143,7 +143,7 @@ PROPS["C07"] = dict(
     stages=[
         stage("corpus"),
         stage("table"),
-        stage("random", kind="rc", quick=3000, thorough=60000, max_size=100),
+        stage("random", kind="rc", quick=3000, thorough=250000, max_size=100),
     ],
     rule="Valid, non-reserved host names without root dot whose last label is: every row of data/punycode.csv (as is / upper / alternating case, "
          "after 1-4 leading labels), every proper prefix and proper suffix of a row, one-character extensions at either end, substitutions at 3 "
@@ -161,6 +161,7 @@ PROPS["C07"] = dict(
 
 PROPS["C08"] = dict(
     level="exploration",
+    finite_quantifier=True,   # the property's quantifier is finite and every run enumerates it completely -> evidence.exhaustive = true
     default_binary="c08",
     binaries={"c08": dict(src=["props/c08.cpp"], variants=["dflt"])},
     stages=[
@@ -189,7 +190,7 @@ PROPS["C11"] = dict(
     stages=[
         stage("regen", binary="c11py", workers=1),
         stage("rows"),
-        stage("random", kind="rc", quick=2000, thorough=40000, max_size=100),
+        stage("random", kind="rc", quick=2000, thorough=150000, max_size=100),
         stage("gencsv", binary="c11py", workers=8, quick=15, thorough=400),
     ],
     rule="Programs: util/gentld.pl and util/gen_utf8_pass_test.pl, run unmodified (a) on the shipped CSVs, output compared line by line with the shipped "
@@ -219,7 +220,7 @@ PROPS["C01"] = dict(
         stage("corpus"),
         stage("lengths"),
         stage("bounded"),
-        stage("random", kind="rc", quick=10000, thorough=100000, max_size=100),
+        stage("random", kind="rc", quick=10000, thorough=1500000, max_size=100),
     ],
     rule="Addresses: all strings of length 0-7 (quick) / 0-8 (thorough) over {a @ . [ ] 1 : \"}; local parts of 58-72 octets in 7 word shapes "
          "(atom, dotted, quoted, quoted pair, 2- and 4-byte UTF-8 whose byte count crosses 64 while the character count does not) x 5 domains; "
@@ -245,9 +246,9 @@ PROPS["C12"] = dict(
         stage("corpus"),
         stage("bytes"),
         stage("bounded"),
-        stage("random", kind="rc", quick=10000, thorough=100000, max_size=100),
+        stage("random", kind="rc", quick=10000, thorough=1500000, max_size=100),
     ],
-    rule="All strings of length <= 5 (quick) / <= 6 (thorough) over the 12-class pure-ASCII alphabet {a 1 . - @ [ ] : SP ( 0x01 _}; every ASCII byte "
+    rule="All strings of length <= 5 (quick) / <= 7 (thorough) over the 12-class pure-ASCII alphabet {a 1 . - @ [ ] : SP ( 0x01 _}; every ASCII byte "
          "except DQUOTE/backslash at 3 positions of the local part x 18 domain shapes; grammar-based random addresses of the C01 generator (half of "
          "them steered into the 'pure ASCII, no quote/backslash' population) with default and random allow_tld; the repository corpus; all in 4 modes "
          "x tld_check {0,1}. Non-trivial = the address has a non-empty domain part; distinct by address hash.",
@@ -267,7 +268,7 @@ PROPS["C15"] = dict(
         stage("setup", workers=1),
         stage("codes", workers=1),
         stage("targets"),
-        stage("random", kind="rc", quick=10000, thorough=100000, max_size=100),
+        stage("random", kind="rc", quick=10000, thorough=1500000, max_size=100),
     ],
     rule="Inputs: the repository corpus and ~45 hand-picked addresses (one or more per error code), each with every one-byte insertion / replacement "
          "from {. \" @ SP - 0x80 \\ [ 0x01} and every one-byte deletion; grammar-based random addresses of the C01 generator with default and "
@@ -294,7 +295,7 @@ PROPS["C16"] = dict(
         stage("corpus"),
         stage("forms"),
         stage("bounded"),
-        stage("random", kind="rc", quick=8000, thorough=80000, max_size=100),
+        stage("random", kind="rc", quick=8000, thorough=300000, max_size=100),
     ],
     rule="All strings of length <= 6 (quick) / <= 7 (thorough) over {a @ . [ ] 1 : \"}; 8 local-part forms x 23 domain forms (host, reserved, "
          "unlisted, single label, IDN in both spellings, IPv4/IPv6 literals tagged and untagged, malformed literals, root dot) x 3 masks; "
@@ -317,7 +318,7 @@ PROPS["C10"] = dict(
         stage("corpus"),
         stage("tlds"),
         stage("scripts"),
-        stage("random", kind="rc", quick=8000, thorough=100000, max_size=100),
+        stage("random", kind="rc", quick=8000, thorough=1500000, max_size=100),
     ],
     rule="Domains: every IDN TLD row of the table in U- and A-form x 10 placements; single code points of 11 script ranges (Cyrillic lower/upper, "
          "Greek, Han, Hangul, Arabic, Hebrew, Devanagari, Latin-1, full-width Latin, Hiragana) x 5 placements; labels of 1-64 characters per script "
@@ -363,7 +364,7 @@ PROPS["C13"] = dict(
     binaries={"c13": dict(src=["props/c13.cpp"], variants=["dflt"])},
     stages=[
         stage("exhaustive"),
-        stage("random", kind="rc", quick=4000, thorough=40000, max_size=100),
+        stage("random", kind="rc", quick=4000, thorough=150000, max_size=100),
     ],
     rule="Histories on one eav_t: all operation sequences of length <= 6 (quick) / <= 7 (thorough) over a 12-operation pool {rfc=5321, rfc=6531, "
          "rfc=7 (invalid), tld_check=0, allow_tld=0, eav_setup, eav_is_email on 4 addresses (accepted IDN, local-part error, IDN error, plain "
@@ -386,7 +387,7 @@ PROPS["C18"] = dict(
     stages=[
         stage("corpus"),
         stage("histories"),
-        stage("random", kind="rc", quick=4000, thorough=40000, max_size=100),
+        stage("random", kind="rc", quick=4000, thorough=150000, max_size=100),
         stage("randhist", kind="rc", quick=1500, thorough=15000, max_size=100),
     ],
     rule="Configurations: the three partial/<backend> source sets built by the repository's Makefile (FORCE_IDN=idn2|idn|idnkit) against adapter "
@@ -438,7 +439,7 @@ PROPS["C06"] = dict(
         stage("shapes"),
         stage("guard"),
         stage("sweep"),
-        stage("random", kind="rc", quick=3000, thorough=60000, max_size=100),
+        stage("random", kind="rc", quick=3000, thorough=250000, max_size=100),
         stage("callgrind", binary="work", runner=runners.run_callgrind),
         stage("valgrind", binary="vgreplay", runner=runners.run_valgrind, quick=1200, thorough=6000),
         stage("fuzz", binary="fuzzapi", kind="fuzz", runner=runners.run_fuzz, quick=40000, thorough=2000000, max_len=300),
@@ -448,7 +449,7 @@ PROPS["C06"] = dict(
          "and all prefixes of the templates in a read-only page against a PROT_NONE page; grammar-based random addresses (some padded to "
          "0.2-3 KiB); libFuzzer campaigns (16 workers, half seeded from data/*.txt, half from an empty corpus). Every input goes through every public "
          "entry point (eav_is_email in 4 modes x tld_check {0,1}, is_<mode>_email, all per-part validators on the whole string and on both "
-         "halves) in the default and EAV_EXTRA builds under ASan+UBSan+LSan, with the raw eav_t block pre-filled with three patterns before eav_init. "
+         "halves) in the default and EAV_EXTRA builds under ASan+UBSan+LSan, with the raw eav_t block pre-filled with three patterns before eav_init, and with eav_t blocks on the stack (alloca, garbage-filled). "
          "valgrind memcheck replays generated inputs in an uninstrumented build with eav_t from malloc; callgrind measures instruction counts of "
          "19 entry points x 22 shapes (incl. adversaries for the span sets '0.', hex digits, ':') x sizes up to 64 KiB. Non-trivial = the input reaches the domain stage (non-empty text on both sides of "
          "'@') or is >= 1 KiB, or is a work measurement with n >= 4096; distinct by input hash.",
@@ -470,7 +471,7 @@ PROPS["C17"] = dict(
         stage("addresses"),
         stage("domains"),
         stage("locals"),
-        stage("random", kind="rc", quick=2500, thorough=40000, max_size=100),
+        stage("random", kind="rc", quick=2500, thorough=150000, max_size=100),
     ],
     rule="Configurations: the 8 combinations of RFC6531_FOLLOW_RFC5322 / RFC6531_FOLLOW_RFC20 / LABELS_ALLOW_UNDERSCORE given on make's command line, "
          "plus the build with no variable given, all linked into one process. Inputs: local parts = all strings <= 5 (quick) / <= 6 (thorough) "
@@ -513,7 +514,7 @@ PROPS["C20"] = dict(
     assumptions=["line model = the tool's documented trimming (terminator, one leading space, one trailing blank); '#' in column 1 is a comment",
                  "verdict and message come from the in-process library with eav_init defaults, exactly what bin/main.c configures",
                  "lines containing NUL are judged for robustness and verdict count only (tool and API are C-string based)"],
-    min_evaluations=dict(quick=100000, thorough=1000000),
+    min_evaluations=dict(quick=100000, thorough=15000000),
     technique="differential CLI vs in-process library over rapidcheck-generated files with a line model, sanitizer build of the tool as crash oracle",
     level_text="Exploration: generated files through the real tool (sanitizer build) with an explicit line model and the library as verdict oracle.",
     level_note="Trusted: the line model in props/c20.cpp, ASan/UBSan, posix_spawn plumbing.",
